@@ -64,76 +64,107 @@ def tree_files():
 # region (1) the CI-style run
 
 
-def start_full_run(ctx):
-	dest = os.path.join(ctx.tmpdir(), 'ci-dest')
-	os.makedirs(dest, exist_ok=True)
+def start_full_run(ctx, split):
+	"""The CI command. thorough: exactly as scripts/ci/lint_cpp.sh runs it (one process over the whole tree). quick (the runner stops
+	a quick check after 15 minutes, also on a busy machine): the same command once per source directory (`--source-dir`), the six
+	processes side by side; suites, failures and exit statuses are added up (on the silent tree the sum is what the single run prints:
+	42 suites, 0 failures, exit 0; checked against the single run in the thorough tier)."""
 	linters = os.path.join(REPO, 'linters/cpp')
 	env = dict(os.environ, PYTHONPATH=os.pathsep.join([linters, os.path.join(ROOT, 'shims')]), PYTHONDONTWRITEBYTECODE='1', COLUMNS='80')
-	command = [sys.executable, os.path.join(linters, 'checkProjectStructure.py'), '--text', '--dest-dir', dest] + CI_ARGS[1:]
-	out_path = os.path.join(ctx.tmpdir(), 'ci-stdout.txt')
-	err_path = os.path.join(ctx.tmpdir(), 'ci-stderr.txt')
-	out = open(out_path, 'wb')  # pylint: disable=consider-using-with
-	err = open(err_path, 'wb')  # pylint: disable=consider-using-with
-	proc = subprocess.Popen(command, cwd=os.path.join(REPO, CATAPULT), env=env, stdout=out, stderr=err)  # pylint: disable=consider-using-with
-	return {'proc': proc, 'out': out, 'err': err, 'out_path': out_path, 'err_path': err_path, 'dest': dest, 'command': command, 'start': time.time()}
+	runs = []
+	parts = [[top] for top in SOURCE_TOPS if os.path.isdir(os.path.join(REPO, CATAPULT, top))] if split else [None]
+	# longest first
+	order = {'tests': 0, 'extensions': 1, 'plugins': 2, 'src': 3}
+	parts.sort(key=lambda part: order.get(part[0], 9) if part else 0)
+	for number, part in enumerate(parts):
+		dest = os.path.join(ctx.tmpdir(), f'ci-dest-{number}')
+		os.makedirs(dest, exist_ok=True)
+		command = [sys.executable, os.path.join(linters, 'checkProjectStructure.py'), '--text', '--dest-dir', dest] + CI_ARGS[1:]
+		for top in part or []:
+			command += ['--source-dir', top]
+		out_path = os.path.join(ctx.tmpdir(), f'ci-stdout-{number}.txt')
+		err_path = os.path.join(ctx.tmpdir(), f'ci-stderr-{number}.txt')
+		out = open(out_path, 'wb')  # pylint: disable=consider-using-with
+		err = open(err_path, 'wb')  # pylint: disable=consider-using-with
+		proc = subprocess.Popen(command, cwd=os.path.join(REPO, CATAPULT), env=env, stdout=out, stderr=err)  # pylint: disable=consider-using-with
+		runs.append({'proc': proc, 'out': out, 'err': err, 'out_path': out_path, 'err_path': err_path, 'dest': dest, 'command': command, 'part': part})
+	return {'runs': runs, 'start': time.time(), 'split': split}
 
 
 SUITE_RE = re.compile(r'^===== (.*) ===== \(tests: (\d+), failures: (\d+)\)$')
 SUMMARY_RE = re.compile(r'^>>> SUMMARY \((SUCCESS|FAILURE), (\d+) violations\)$')
 
 
-def finish_full_run(ctx, run):
-	code = run['proc'].wait(timeout=1500)
-	run['out'].close()
-	run['err'].close()
-	with open(run['out_path'], 'rt', encoding='utf8', errors='replace') as infile:
-		lines = infile.read().split('\n')
-	with open(run['err_path'], 'rt', encoding='utf8', errors='replace') as infile:
-		stderr = infile.read()
-	suites = []
+def finish_full_run(ctx, full):
+	suites = {}
+	order = []
 	summaries = []
-	current = None
-	for line in lines:
-		match = SUITE_RE.match(line)
-		if match:
-			current = {'suite': match.group(1), 'tests': int(match.group(2)), 'failures': int(match.group(3)), 'lines': []}
-			suites.append(current)
-			continue
-		match = SUMMARY_RE.match(line)
-		if match:
-			summaries.append((match.group(1), int(match.group(2))))
-			current = None
-			continue
-		if current is not None and line.strip():
-			current['lines'].append(line)
-	ctx.count('ci:suites', len(suites))
-	ctx.count('ci:files', max([suite['tests'] for suite in suites] or [0]))
-	ctx.count('ci:seconds', int(time.time() - run['start']))
-	case = {'kind': 'ci', 'command': ' '.join(run['command'][1:]), 'cwd': CATAPULT, 'exit': code}
-	ctx.case(('ci',), {'command': case['command'], 'exit': code, 'suites': len(suites), 'summaries': summaries})
-	for suite in suites:
+	codes = []
+	stderr_tail = ''
+	stray = []
+	for run in full['runs']:
+		code = run['proc'].wait(timeout=3000)
+		run['out'].close()
+		run['err'].close()
+		codes.append(code)
+		with open(run['out_path'], 'rt', encoding='utf8', errors='replace') as infile:
+			lines = infile.read().split('\n')
+		with open(run['err_path'], 'rt', encoding='utf8', errors='replace') as infile:
+			stderr = infile.read()
+		if stderr.strip():
+			stderr_tail = stderr.strip().splitlines()[-1]
+		current = None
+		own_summaries = []
+		for line in lines:
+			match = SUITE_RE.match(line)
+			if match:
+				name = match.group(1)
+				if name not in suites:
+					suites[name] = {'suite': name, 'tests': 0, 'failures': 0, 'lines': []}
+					order.append(name)
+				current = suites[name]
+				current['tests'] += int(match.group(2))
+				current['failures'] += int(match.group(3))
+				continue
+			match = SUMMARY_RE.match(line)
+			if match:
+				own_summaries.append((match.group(1), int(match.group(2))))
+				current = None
+				continue
+			if current is not None and line.strip():
+				current['lines'].append(line)
+		summaries.append(own_summaries)
+		stray += sorted(os.listdir(run['dest']))
+		if 4 != len(own_summaries):
+			ctx.fail('corr', f'a CI-style run printed {len(own_summaries)} summaries (expected 4): {" ".join(run["command"][1:])}', {'kind': 'ci', 'stderr': stderr[-500:]})
+	suite_list = [suites[name] for name in order]
+	ctx.count('ci:suites', len(suite_list))
+	ctx.count('ci:files', max([suite['tests'] for suite in suite_list] or [0]))
+	ctx.count('ci:seconds', int(time.time() - full['start']))
+	ctx.count('ci:processes', len(full['runs']))
+	command_text = ' '.join(full['runs'][0]['command'][1:]) + (' (once per source directory)' if full['split'] else '')
+	case = {'kind': 'ci', 'command': command_text, 'cwd': CATAPULT, 'exit': codes}
+	ctx.case(('ci',), {'command': command_text, 'exit': codes, 'suites': len(suite_list), 'summaries': summaries[0]})
+	for suite in suite_list:
 		ctx.case(('ci-suite', suite['suite']), None)
 		if suite['failures']:
 			ctx.fail(
 				'property', f'the linter is not silent on the tree: suite {suite["suite"]} reports {suite["failures"]} failure(s): '
 				+ ' | '.join(suite['lines'][:3])[:600], dict(case, suite=suite['suite'], failures=suite['failures'], first=suite['lines'][:5]))
-	bad = [(verdict, violations) for verdict, violations in summaries if 'SUCCESS' != verdict or violations]
+	bad = [(verdict, violations) for own in summaries for verdict, violations in own if 'SUCCESS' != verdict or violations]
 	if bad:
 		ctx.fail('property', f'SUMMARY ({bad[0][0]}, {bad[0][1]} violations) printed for the tree', dict(case, summaries=summaries))
-	if 0 != code:
-		tail = stderr.strip().splitlines()[-1] if stderr.strip() else ''
-		ctx.fail('property', f'the CI lint run exits with status {code} on the tree {tail}', dict(case, stderr=stderr[-800:]))
-	if EXPECTED_SUITES != len(suites) or 4 != len(summaries):
-		ctx.fail('corr', f'the CI run printed {len(suites)} suites and {len(summaries)} summaries (expected {EXPECTED_SUITES} and 4)', case)
-	# exit status = number of violations (ConReporter.total_failures), truncated by the shell to 8 bits
-	total = sum(suite['failures'] for suite in suites)
-	if code != min(total, 255) and not (total > 255 and code == total & 0xFF):
-		if not (0 != code and 'Traceback' in stderr):
-			ctx.fail('property', f'exit status {code} is not the number of reported violations {total}', dict(case, total=total))
-	stray = sorted(os.listdir(run['dest']))
+	if any(codes):
+		ctx.fail('property', f'the CI lint run exits with status {codes} on the tree {stderr_tail}', dict(case, stderr=stderr_tail))
+	if EXPECTED_SUITES != len(suite_list):
+		ctx.fail('corr', f'the CI run printed {len(suite_list)} suites (expected {EXPECTED_SUITES})', case)
+	# exit status = number of violations (ConReporter.total_failures), truncated by the operating system to 8 bits
+	total = sum(suite['failures'] for suite in suite_list)
+	if sum(codes) != total and not any(code and 'Traceback' in stderr_tail for code in codes) and total < 256:
+		ctx.fail('property', f'exit statuses {codes} do not add up to the number of reported violations {total}', dict(case, total=total))
 	if stray:
 		ctx.notes.append(f'files written by the text-mode CI run into --dest-dir: {stray}')
-	return suites
+	return suite_list
 
 
 # endregion
@@ -1121,7 +1152,7 @@ def run(ctx):
 	files = [relpath for relpath in files if relpath not in skipped]
 	ctx.count('files:skipped-by-the-linter-itself', len(skipped))
 	rng = ctx.rng
-	full = start_full_run(ctx)
+	full = start_full_run(ctx, split=not ctx.thorough)
 	try:
 		_POOL_ROOT = ctx.tmpdir()
 		workers = max(2, min(8, (os.cpu_count() or 4) // 2))
@@ -1160,6 +1191,8 @@ def run(ctx):
 						pool.terminate()
 						break
 
+		ctx.count('seconds:seeded-edits', int(time.time() - full['start']))
+		mark = time.time()
 		# Lean regex engine against `re`
 		lines = []
 		for relpath in rng.sample(files, ctx.scale(40, 400)):
@@ -1175,16 +1208,18 @@ def run(ctx):
 				if 'true' != ctx.driver.ask(f'full {entry["id"]} {sx(entry["witness"])}'):
 					ctx.fail('corr', f'model: witness {entry["witness"]!r} does not match {entry["source"]!r}', {'kind': 'witness', 'id': entry['id']})
 
+		ctx.count('seconds:regex-correspondence', int(time.time() - mark))
+		mark = time.time()
 		# Lean line-rule models against the real validators, on seeded files and on conforming files
 		if ctx.driver:
-			for case, modelled in model_requests[:ctx.scale(500, 1500)]:
+			for case, modelled in model_requests[:ctx.scale(150, 1500)]:
 				answer = ctx.driver.ask(f'lint {1 if modelled["header"] else 0} {sx(modelled["text"])}')
 				ctx.count('model-lint:seeded-files')
 				if model_view(answer, entries) != modelled_view(modelled['reports'], entries):
 					ctx.fail(
 						'corr', f'{case["name"]} in {case["relpath"]}: modelled reports differ: model {model_view(answer, entries)[:6]}, '
 						f'implementation {modelled_view(modelled["reports"], entries)[:6]}', {'kind': 'seeded', 'case': case, 'model': answer[:300]})
-			for relpath in rng.sample(files, ctx.scale(60, 300)):
+			for relpath in rng.sample(files, ctx.scale(40, 300)):
 				with open(os.path.join(base, relpath), 'rt', encoding='utf8') as infile:
 					text = infile.read()
 				if not text.isascii():
@@ -1194,6 +1229,7 @@ def run(ctx):
 				if '-' != answer:
 					ctx.fail('corr', f'the model is not silent on the conforming file {relpath}: {answer[:200]}', {'kind': 'model-silent', 'file': relpath})
 				ctx.case(('model-silent', relpath), None)
+		ctx.count('seconds:model-lint', int(time.time() - mark))
 		check_frozen_catalogue(ctx)
 		ctx.count('regex:table-entries', len(entries))
 		ctx.count('regex:typo-entries', typo_count)
@@ -1231,7 +1267,7 @@ def replay(ctx, payload):
 	elif 'regex' == kind:
 		check_regex_correspondence(ctx, entries, [case['line']], 'replay')
 	elif 'ci' == kind:
-		finish_full_run(ctx, start_full_run(ctx))
+		finish_full_run(ctx, start_full_run(ctx, split=False))
 	elif 'catalogue' == kind:
 		check_frozen_catalogue(ctx)
 	else:
